@@ -1,4 +1,5 @@
 import NpsVerif.Props.C08A
 import NpsVerif.Props.C08B
+import NpsVerif.Props.C08C
 /-! Property C08: theorems in `Props/C08A.lean` (concatenate, *_like, nonzero, where, subset, mask
-indexing) and `Props/C08B.lean` (ragged_slice, padded matrix). -/
+indexing) `Props/C08B.lean` (ragged_slice, padded matrix) and `Props/C08C.lean` (ragged_slice on 1-D / 2-D ndarrays). -/
